@@ -1291,3 +1291,89 @@ pub fn gen_future(rng: &mut Rng) -> Program {
     }
     p
 }
+
+
+// ------------------------------------------------------------------------------------------
+// FAULT: caught panics. A panic is raised and caught (`catch_unwind`) inside the model and a
+// release-type operation of the program is performed by a destructor while it unwinds
+// (`std::thread::panicking()` is true). The operation must take effect exactly as it does
+// otherwise (plus lock poisoning).
+//
+// Domain: all modeled threads share one OS thread and therefore one `panicking()` flag (known
+// finding K7): if the unwinding thread is switched out, other threads run "while panicking".
+// The fault is therefore only placed where loom cannot switch threads during the unwinding:
+// on operations that have no scheduling point, or at points of thread 0 where every other
+// thread is finished (joined) or not yet spawned.
+
+/// Thread 0 at `pc`: every other thread has been joined before `pc` or is spawned after it
+/// (threads are only spawned by thread 0).
+fn quiescent_at(p: &Program, t: usize, pc: usize) -> bool {
+    if t != 0 {
+        return false;
+    }
+    for (u, th) in p.threads.iter().enumerate() {
+        if u != 0 && th.iter().any(|o| matches!(o.inner(), Op::Spawn { .. })) {
+            return false;
+        }
+    }
+    for (i, op) in p.threads[0].iter().enumerate() {
+        if let Op::Spawn { t: u } = op {
+            if i > pc {
+                continue;
+            }
+            let joined = p.threads[0][i..pc].iter().any(|o| matches!(o, Op::Join { t: x } if x == u));
+            if !joined {
+                return false;
+            }
+        } else if matches!(op.inner(), Op::Spawn { .. }) {
+            return false; // conditional spawn: not analysed
+        }
+    }
+    true
+}
+
+pub fn caught_sites(p: &Program) -> Vec<(usize, usize)> {
+    let mut sites = Vec::new();
+    for (t, th) in p.threads.iter().enumerate() {
+        for (pc, op) in th.iter().enumerate() {
+            let ok = match op {
+                Op::Unlock { .. } | Op::RUnlock { .. } | Op::WUnlock { .. } | Op::TrackDrop { .. } | Op::Dealloc { .. } | Op::DropTx { .. } | Op::Unpark { .. } => true,
+                Op::DropRx { .. } | Op::ArcDrop { .. } | Op::Store { .. } | Op::Send { .. } | Op::CvOne { .. } | Op::CvAll { .. } | Op::NNotify { .. } | Op::CWrite { .. } => quiescent_at(p, t, pc),
+                _ => false,
+            };
+            if ok {
+                sites.push((t, pc));
+            }
+        }
+    }
+    sites
+}
+
+/// Wrap one (sometimes two) eligible operations; returns the number of faults placed.
+pub fn inject_caught(p: &mut Program, rng: &mut Rng) -> usize {
+    // a receiver that still holds messages dropped by the unwinding, once everything else is over
+    if p.n_chan > 0 && rng.chance(1, 2) {
+        let c = rng.below(p.n_chan as usize) as u8;
+        let others_receive = p.threads.iter().enumerate().any(|(t, th)| t != 0 && th.iter().any(|o| matches!(o.inner(), Op::Recv { c: x } | Op::TryRecv { c: x } | Op::DropRx { c: x } if *x == c)));
+        let t0_drops = p.threads[0].iter().any(|o| matches!(o.inner(), Op::DropRx { c: x } if *x == c));
+        let end = p.threads[0].len();
+        if !others_receive && !t0_drops && quiescent_at(p, 0, end) {
+            p.threads[0].push(Op::Caught { op: Box::new(Op::DropRx { c }) });
+            return 1;
+        }
+    }
+    let mut sites = caught_sites(p);
+    if sites.is_empty() {
+        return 0;
+    }
+    let n = if sites.len() >= 2 && rng.chance(1, 3) { 2 } else { 1 };
+    let mut placed = 0;
+    for _ in 0..n {
+        let i = rng.below(sites.len());
+        let (t, pc) = sites.remove(i);
+        let op = std::mem::replace(&mut p.threads[t][pc], Op::Yield);
+        p.threads[t][pc] = Op::Caught { op: Box::new(op) };
+        placed += 1;
+    }
+    placed
+}
